@@ -1,3 +1,1496 @@
+//! C18 - Routing is deterministic: patterns invert, ambiguity is detected.
+//! Engine E4 (bounded exhaustive enumeration) over `swimos_route::{RoutePattern, RouteUri}`.
+//!
+//! For every space (a segment alphabet, a length bound, a set of schemes) the check
+//!  1. `parse`    : parses every generated pattern (well-formed ones must parse to the generated
+//!                  structure, duplicate-parameter ones must be rejected) plus hand-written malformed
+//!                  patterns (must be `Err`, never a panic) and odd ones (no panic);
+//!  2. `roundtrip`: for every pattern and every parameter map, `apply` then `unapply_str` /
+//!                  `RouteUri::from_str` + `unapply_route_uri` (the server's route, see
+//!                  `server/runtime/mod.rs`: `RouteUri::from_str(node)` -> `Routes::find_route` ->
+//!                  `pattern.unapply_route_uri`) must return exactly the map;
+//!  3. `matrix`   : every synthesised URI (plus probes with an emptied segment) is matched against
+//!                  every pattern: a binding is never "", the string and the `RouteUri` entry points
+//!                  agree (matching is a function of the URI text alone);
+//!  4. `pairs`    : for every pair of distinct patterns, if some URI of the pool matches both then
+//!                  `RoutePattern::are_ambiguous` (the call `PlaneBuilder::build` and
+//!                  `PlaneModel::check_meta_collisions` make) must be true in both argument orders.
+//!                  Ambiguous pairs without a common URI in the pool are only counted.
+
+use serde_json::{json, Value};
+use std::collections::{BTreeMap, BTreeSet, HashMap};
+use std::panic::{catch_unwind, AssertUnwindSafe};
+use std::str::FromStr;
+use std::sync::atomic::{AtomicU64, Ordering};
+use std::sync::Mutex;
+use std::time::Instant;
+use swimos_route::{RoutePattern, RouteUri};
+use vcommon::{ncpu, par_map, Ctx, Leg};
+
+type PMap = BTreeMap<String, String>;
+
+const VALUES: [&str; 7] = ["a", "b", "a b", "/", "%", "é", ""];
+const SENTINEL: &str = "QQZQQ";
+
+// ------------------------------------------------------------------------------------------
+// generator-side description of a pattern
+
+#[derive(Clone, Debug, PartialEq, Eq, PartialOrd, Ord, Hash)]
+enum Seg {
+    Lit(String),
+    Par(String),
+}
+
+impl Seg {
+    fn text(&self) -> String {
+        match self {
+            Seg::Lit(s) => s.clone(),
+            Seg::Par(n) => format!(":{}", n),
+        }
+    }
+    fn to_json(&self) -> Value {
+        match self {
+            Seg::Lit(s) => json!(["lit", s]),
+            Seg::Par(n) => json!(["par", n]),
+        }
+    }
+    fn from_json(v: &Value) -> Seg {
+        let k = v[0].as_str().unwrap_or("");
+        let s = v[1].as_str().unwrap_or("").to_string();
+        if k == "par" {
+            Seg::Par(s)
+        } else {
+            Seg::Lit(s)
+        }
+    }
+}
+
+fn lit(s: &str) -> Seg {
+    Seg::Lit(s.to_string())
+}
+fn par(s: &str) -> Seg {
+    Seg::Par(s.to_string())
+}
+
+#[derive(Clone, Debug)]
+struct Spec {
+    text: String,
+    scheme: Option<String>,
+    absolute: bool,
+    segs: Vec<Seg>,
+}
+
+impl Spec {
+    fn new(scheme: Option<&str>, absolute: bool, segs: Vec<Seg>) -> Spec {
+        let mut text = String::new();
+        if let Some(s) = scheme {
+            text.push_str(s);
+            text.push(':');
+        }
+        if absolute {
+            text.push('/');
+        }
+        text.push_str(&segs.iter().map(|s| s.text()).collect::<Vec<_>>().join("/"));
+        Spec { text, scheme: scheme.map(|s| s.to_string()), absolute, segs }
+    }
+    fn params(&self) -> Vec<String> {
+        self.segs
+            .iter()
+            .filter_map(|s| match s {
+                Seg::Par(n) => Some(n.clone()),
+                _ => None,
+            })
+            .collect()
+    }
+    fn has_dup(&self) -> bool {
+        let p = self.params();
+        let s: BTreeSet<&String> = p.iter().collect();
+        s.len() != p.len()
+    }
+    fn to_json(&self) -> Value {
+        json!({"text": self.text, "scheme": self.scheme, "absolute": self.absolute,
+               "segs": self.segs.iter().map(|s| s.to_json()).collect::<Vec<_>>()})
+    }
+    fn from_json(v: &Value) -> Spec {
+        let segs = v["segs"].as_array().map(|a| a.iter().map(Seg::from_json).collect()).unwrap_or_default();
+        Spec::new(v["scheme"].as_str(), v["absolute"].as_bool().unwrap_or(false), segs)
+    }
+}
+
+struct Pat {
+    spec: Spec,
+    rp: RoutePattern,
+    params: Vec<String>,
+    /// keys over which parameter maps are enumerated for this pattern
+    universe: Vec<String>,
+}
+
+fn make_pat(spec: &Spec, universe: &[String]) -> Option<Pat> {
+    match guard(|| RoutePattern::parse_str(&spec.text)) {
+        Ok(Ok(rp)) => Some(Pat { spec: spec.clone(), rp, params: spec.params(), universe: universe.to_vec() }),
+        _ => None,
+    }
+}
+
+struct Space {
+    name: &'static str,
+    segs: Vec<Seg>,
+    max_len: usize,
+    /// (scheme, largest pattern length generated with it)
+    schemes: Vec<(Option<&'static str>, usize)>,
+    extras: Vec<Spec>,
+}
+
+impl Space {
+    fn universe(&self) -> Vec<String> {
+        let s: BTreeSet<String> = self
+            .segs
+            .iter()
+            .filter_map(|s| match s {
+                Seg::Par(n) => Some(n.clone()),
+                _ => None,
+            })
+            .collect();
+        s.into_iter().collect()
+    }
+
+    /// All generated patterns, smallest first: by length, then form, then segment sequence.
+    fn specs(&self) -> Vec<Spec> {
+        let mut out = vec![];
+        let k = self.segs.len();
+        for len in 1..=self.max_len {
+            for (scheme, smax) in &self.schemes {
+                if len > *smax {
+                    continue;
+                }
+                for absolute in [true, false] {
+                    let mut idx = vec![0usize; len];
+                    'seq: loop {
+                        let segs: Vec<Seg> = idx.iter().map(|i| self.segs[*i].clone()).collect();
+                        out.push(Spec::new(*scheme, absolute, segs));
+                        let mut pos = len;
+                        loop {
+                            if pos == 0 {
+                                break 'seq;
+                            }
+                            pos -= 1;
+                            idx[pos] += 1;
+                            if idx[pos] < k {
+                                break;
+                            }
+                            idx[pos] = 0;
+                        }
+                    }
+                }
+            }
+        }
+        out
+    }
+
+    fn bounds(&self) -> Value {
+        json!({"segments": self.segs.iter().map(|s| s.text()).collect::<Vec<_>>(), "max_len": self.max_len,
+               "schemes": self.schemes.iter().map(|(s, l)| json!({"scheme": s, "max_len": l})).collect::<Vec<_>>(),
+               "forms": "absolute and relative",
+               "extra_patterns": self.extras.iter().map(|s| s.text.clone()).collect::<Vec<_>>(),
+               "values": VALUES, "maps": "every key of the space's parameter universe absent or bound to one of the values"})
+    }
+}
+
+// ------------------------------------------------------------------------------------------
+// helpers
+
+fn guard<T>(f: impl FnOnce() -> T) -> Result<T, String> {
+    catch_unwind(AssertUnwindSafe(f)).map_err(|e| {
+        if let Some(s) = e.downcast_ref::<&str>() {
+            s.to_string()
+        } else if let Some(s) = e.downcast_ref::<String>() {
+            s.clone()
+        } else {
+            "panic".to_string()
+        }
+    })
+}
+
+fn pdecode(s: &str) -> Vec<u8> {
+    let b = s.as_bytes();
+    let mut out = vec![];
+    let mut i = 0;
+    let hex = |c: u8| (c as char).to_digit(16);
+    while i < b.len() {
+        if b[i] == b'%' && i + 2 < b.len() {
+            if let (Some(h), Some(l)) = (hex(b[i + 1]), hex(b[i + 2])) {
+                out.push((h * 16 + l) as u8);
+                i += 3;
+                continue;
+            }
+        }
+        out.push(b[i]);
+        i += 1;
+    }
+    out
+}
+
+fn all_maps(universe: &[String]) -> Vec<PMap> {
+    // every key: one of the values (smallest first) or absent (last)
+    let opts: Vec<Option<&str>> = VALUES.iter().map(|v| Some(*v)).chain(std::iter::once(None)).collect();
+    let mut out = vec![PMap::new()];
+    for k in universe {
+        let mut next = vec![];
+        for m in &out {
+            for o in &opts {
+                let mut m2 = m.clone();
+                if let Some(v) = o {
+                    m2.insert(k.clone(), v.to_string());
+                }
+                next.push(m2);
+            }
+        }
+        out = next;
+    }
+    out
+}
+
+fn to_hash(m: &PMap) -> HashMap<String, String> {
+    m.iter().map(|(k, v)| (k.clone(), v.clone())).collect()
+}
+
+fn norm<E: std::fmt::Debug>(r: Result<HashMap<String, String>, E>) -> Result<PMap, String> {
+    match r {
+        Ok(m) => Ok(m.into_iter().collect()),
+        Err(_) => Err("no match".to_string()),
+    }
+}
+
+/// Re-assemble the text a parsed RouteUri accounts for.
+fn rebuild(ru: &RouteUri) -> String {
+    let mut s = String::new();
+    if let Some(sc) = ru.scheme() {
+        s.push_str(sc);
+        s.push(':');
+    }
+    s.push_str(ru.path());
+    if let Some(q) = ru.query() {
+        s.push('?');
+        s.push_str(q);
+    }
+    if let Some(f) = ru.fragment() {
+        s.push('#');
+        s.push_str(f);
+    }
+    s
+}
+
+#[derive(Clone, Debug)]
+struct Fail {
+    law: String,
+    kind: String,
+    what: String,
+}
+
+fn fail(law: &str, kind: &str, what: String) -> Option<Fail> {
+    Some(Fail { law: law.to_string(), kind: kind.to_string(), what })
+}
+
+// ------------------------------------------------------------------------------------------
+// case evaluators (also used by --replay)
+
+struct Rt {
+    uri: Option<String>,
+    /// the URI came from a successful apply with every parameter validly bound
+    synth: bool,
+    fail: Option<Fail>,
+    calls: u64,
+}
+
+fn roundtrip(p: &Pat, m: &PMap) -> Rt {
+    let hm = to_hash(m);
+    let expect_ok = p.params.iter().all(|n| m.get(n).map_or(false, |v| !v.is_empty()));
+    let expected: PMap = p.params.iter().filter_map(|n| m.get(n).map(|v| (n.clone(), v.clone()))).collect();
+    let mut calls = 1;
+    let applied = match guard(|| p.rp.apply(&hm)) {
+        Ok(r) => r,
+        Err(pm) => {
+            return Rt { uri: None, synth: false, fail: fail("no_panic", "apply", format!("apply panicked: {}", pm)), calls }
+        }
+    };
+    match (expect_ok, applied) {
+        (false, Err(_)) => Rt { uri: None, synth: false, fail: None, calls },
+        (true, Err(e)) => Rt {
+            uri: None,
+            synth: false,
+            fail: fail("apply_total", "", format!("apply failed ({}) although every parameter has a non-empty value", e)),
+            calls,
+        },
+        (false, Ok(u)) => Rt {
+            fail: fail(
+                "apply_rejects_missing_or_empty",
+                "",
+                format!("apply produced '{}' although a parameter is missing or empty", u),
+            ),
+            uri: Some(u),
+            synth: false,
+            calls,
+        },
+        (true, Ok(u)) => {
+            calls += 2;
+            let parsed = guard(|| RouteUri::from_str(&u));
+            let via_str = guard(|| p.rp.unapply_str(&u));
+            let (parsed, via_str) = match (parsed, via_str) {
+                (Ok(a), Ok(b)) => (a, b),
+                (Err(pm), _) => {
+                    return Rt { uri: Some(u), synth: true, fail: fail("no_panic", "RouteUri::from_str", pm), calls }
+                }
+                (_, Err(pm)) => return Rt { uri: Some(u), synth: true, fail: fail("no_panic", "unapply_str", pm), calls },
+            };
+            let via_str = norm(via_str);
+            let f = match parsed {
+                Err(_) => {
+                    if via_str.is_ok() {
+                        fail("entrypoints_agree", "", format!("unapply_str matched '{}' which RouteUri::from_str rejects", u))
+                    } else {
+                        fail(
+                            "roundtrip",
+                            "uri_rejected",
+                            format!("apply produced '{}' which is not a valid RouteUri, so it matches nothing", u),
+                        )
+                    }
+                }
+                Ok(ru) => {
+                    let covered = rebuild(&ru);
+                    let truncated = covered != u;
+                    calls += 1;
+                    match guard(|| p.rp.unapply_route_uri(&ru)) {
+                        Err(pm) => fail("no_panic", "unapply_route_uri", pm),
+                        Ok(r) => {
+                            let via_uri = norm(r);
+                            if via_uri != via_str {
+                                fail(
+                                    "entrypoints_agree",
+                                    "",
+                                    format!("unapply_str('{}') = {:?} but unapply_route_uri = {:?}", u, via_str, via_uri),
+                                )
+                            } else {
+                                match via_uri {
+                                    Ok(b) if b == expected => None,
+                                    Ok(b) => fail(
+                                        "roundtrip",
+                                        if truncated { "uri_truncated" } else { "wrong_bindings" },
+                                        format!(
+                                            "apply produced '{}'{}; unapply returned {:?}, expected {:?}",
+                                            u,
+                                            if truncated { format!(" (RouteUri only accounts for '{}')", covered) } else { String::new() },
+                                            b,
+                                            expected
+                                        ),
+                                    ),
+                                    Err(_) => fail(
+                                        "roundtrip",
+                                        if truncated { "uri_truncated" } else { "no_match" },
+                                        format!(
+                                            "apply produced '{}'{} which the same pattern does not match",
+                                            u,
+                                            if truncated { format!(" (RouteUri only accounts for '{}')", covered) } else { String::new() }
+                                        ),
+                                    ),
+                                }
+                            }
+                        }
+                    }
+                }
+            };
+            Rt { uri: Some(u), synth: true, fail: f, calls }
+        }
+    }
+}
+
+/// Reduce a failing (pattern, map) to the single segment that fails the same law on its own.
+fn roundtrip_culprit(p: &Pat, m: &PMap, law: &str) -> String {
+    let mut found: BTreeSet<String> = BTreeSet::new();
+    let segs: BTreeSet<&Seg> = p.spec.segs.iter().collect();
+    for seg in segs {
+        let single = Spec::new(None, true, vec![seg.clone()]);
+        let sp = match make_pat(&single, &[]) {
+            Some(sp) => sp,
+            None => continue,
+        };
+        let fails = |mm: &PMap| roundtrip(&sp, mm).fail.map_or(false, |f| f.law == law);
+        match seg {
+            Seg::Lit(s) => {
+                if fails(&PMap::new()) {
+                    found.insert(format!("lit({})", s));
+                }
+            }
+            Seg::Par(n) => {
+                let mut plain = PMap::new();
+                plain.insert(n.clone(), "a".to_string());
+                if fails(&plain) {
+                    found.insert(format!("param_name({})", n));
+                } else {
+                    match m.get(n) {
+                        Some(v) => {
+                            let mut mm = PMap::new();
+                            mm.insert(n.clone(), v.clone());
+                            if fails(&mm) {
+                                found.insert(format!("param_value({:?})", v));
+                            }
+                        }
+                        None => {
+                            if fails(&PMap::new()) {
+                                found.insert("param_absent".to_string());
+                            }
+                        }
+                    }
+                }
+            }
+        }
+    }
+    match found.into_iter().next() {
+        Some(c) => c,
+        None => format!("whole(pattern={} map={:?})", p.spec.text, m),
+    }
+}
+
+struct Mx {
+    matched: bool,
+    fail: Option<Fail>,
+    calls: u64,
+}
+
+fn matrix_case(u: &str, ru: Option<&RouteUri>, q: &Pat) -> Mx {
+    let mut calls = 1;
+    let s = match guard(|| q.rp.unapply_str(u)) {
+        Ok(r) => norm(r),
+        Err(pm) => return Mx { matched: false, fail: fail("no_panic", "unapply_str", pm), calls },
+    };
+    let ru = match ru {
+        None => {
+            let f = if s.is_ok() {
+                fail("function_of_uri", "str_accepts_unparsable", format!("unapply_str matched '{}' which RouteUri::from_str rejects", u))
+            } else {
+                None
+            };
+            return Mx { matched: false, fail: f, calls };
+        }
+        Some(ru) => ru,
+    };
+    calls += 1;
+    let r = match guard(|| q.rp.unapply_route_uri(ru)) {
+        Ok(r) => norm(r),
+        Err(pm) => return Mx { matched: false, fail: fail("no_panic", "unapply_route_uri", pm), calls },
+    };
+    if r != s {
+        return Mx {
+            matched: r.is_ok(),
+            fail: fail(
+                "function_of_uri",
+                "str_vs_route_uri",
+                format!("unapply_str('{}') = {:?} but unapply_route_uri of the same text = {:?}", u, s, r),
+            ),
+            calls,
+        };
+    }
+    match r {
+        Err(_) => Mx { matched: false, fail: None, calls },
+        Ok(b) => {
+            let mut f = None;
+            for (k, v) in &b {
+                if v.is_empty() {
+                    // where is the empty segment?
+                    let parts: Vec<&str> = ru.path().split('/').collect();
+                    let pos = q.spec.segs.iter().position(|s| match s {
+                        Seg::Par(n) => n == k || pdecode(n) == k.as_bytes(),
+                        _ => false,
+                    });
+                    let wh = match pos {
+                        Some(i) => {
+                            let raw = i + if q.spec.absolute { 1 } else { 0 };
+                            if raw == 0 {
+                                "leading"
+                            } else if raw + 1 == parts.len() {
+                                "trailing"
+                            } else {
+                                "inner"
+                            }
+                        }
+                        None => "unknown",
+                    };
+                    f = fail("no_empty_binding", wh, format!("pattern '{}' matched '{}' binding {} = \"\"", q.spec.text, u, k));
+                    break;
+                }
+            }
+            Mx { matched: true, fail: f, calls }
+        }
+    }
+}
+
+struct Pr {
+    amb_pq: bool,
+    amb_qp: bool,
+    fail: Option<Fail>,
+}
+
+fn pair_case(p: &Pat, q: &Pat, witness: Option<&str>) -> Pr {
+    let a = guard(|| RoutePattern::are_ambiguous(&p.rp, &q.rp));
+    let b = guard(|| RoutePattern::are_ambiguous(&q.rp, &p.rp));
+    let (a, b) = match (a, b) {
+        (Ok(a), Ok(b)) => (a, b),
+        (Err(pm), _) | (_, Err(pm)) => {
+            return Pr { amb_pq: false, amb_qp: false, fail: fail("no_panic", "are_ambiguous", pm) }
+        }
+    };
+    let f = match witness {
+        Some(u) if !(a && b) => fail(
+            "overlap_implies_ambiguous",
+            if !a && !b { "both" } else { "one" },
+            format!(
+                "'{}' matches both '{}' and '{}' but are_ambiguous(p,q)={} are_ambiguous(q,p)={}",
+                u, p.spec.text, q.spec.text, a, b
+            ),
+        ),
+        _ => None,
+    };
+    Pr { amb_pq: a, amb_qp: b, fail: f }
+}
+
+fn col_class(a: &Seg, b: &Seg) -> &'static str {
+    match (a, b) {
+        (Seg::Lit(x), Seg::Lit(y)) => {
+            if x == y {
+                "same_lit"
+            } else if pdecode(x) == pdecode(y) {
+                "alias_lit"
+            } else {
+                "diff_lit"
+            }
+        }
+        (Seg::Par(_), Seg::Par(_)) => "param_param",
+        _ => "lit_param",
+    }
+}
+
+/// URIs obtained from a one-segment pattern with every non-empty value.
+fn single_uris(p: &Pat) -> Vec<String> {
+    let mut out = vec![];
+    match p.params.first() {
+        None => {
+            if let Ok(Ok(u)) = guard(|| p.rp.apply(&HashMap::new())) {
+                out.push(u);
+            }
+        }
+        Some(n) => {
+            for v in VALUES {
+                let mut hm = HashMap::new();
+                hm.insert(n.clone(), v.to_string());
+                if let Ok(Ok(u)) = guard(|| p.rp.apply(&hm)) {
+                    out.push(u);
+                }
+            }
+        }
+    }
+    out
+}
+
+/// Reduce a failing pair to the single column that reproduces the failure on its own.
+fn pair_culprit(p: &Pat, q: &Pat, cache: &Mutex<HashMap<(Seg, Seg), bool>>) -> String {
+    let mut found: BTreeSet<&'static str> = BTreeSet::new();
+    let n = p.spec.segs.len().min(q.spec.segs.len());
+    for i in 0..n {
+        let (a, b) = (&p.spec.segs[i], &q.spec.segs[i]);
+        if a == b {
+            continue;
+        }
+        let key = if a <= b { (a.clone(), b.clone()) } else { (b.clone(), a.clone()) };
+        let cached = cache.lock().unwrap().get(&key).copied();
+        let bad = match cached {
+            Some(x) => x,
+            None => {
+                let sa = make_pat(&Spec::new(None, true, vec![a.clone()]), &[]);
+                let sb = make_pat(&Spec::new(None, true, vec![b.clone()]), &[]);
+                let x = match (sa, sb) {
+                    (Some(sa), Some(sb)) => {
+                        let mut uris = single_uris(&sa);
+                        uris.extend(single_uris(&sb));
+                        uris.iter().any(|u| {
+                            let ru = RouteUri::from_str(u).ok();
+                            let m1 = matrix_case(u, ru.as_ref(), &sa).matched;
+                            let m2 = matrix_case(u, ru.as_ref(), &sb).matched;
+                            m1 && m2 && pair_case(&sa, &sb, Some(u)).fail.is_some()
+                        })
+                    }
+                    _ => false,
+                };
+                cache.lock().unwrap().insert(key, x);
+                x
+            }
+        };
+        if bad {
+            found.insert(col_class(a, b));
+        }
+    }
+    match found.into_iter().next() {
+        Some(c) => format!("col({})", c),
+        None => {
+            let mut cols: BTreeSet<&'static str> = BTreeSet::new();
+            for i in 0..n {
+                cols.insert(col_class(&p.spec.segs[i], &q.spec.segs[i]));
+            }
+            let scheme = match (&p.spec.scheme, &q.spec.scheme) {
+                (None, None) => "none",
+                (Some(a), Some(b)) if a == b => "same",
+                (Some(_), Some(_)) => "differ",
+                _ => "one_none",
+            };
+            format!(
+                "shape(len={} abs={} scheme={} cols={})",
+                if p.spec.segs.len() == q.spec.segs.len() { "same" } else { "differ" },
+                if p.spec.absolute == q.spec.absolute { "same" } else { "differ" },
+                scheme,
+                cols.into_iter().collect::<Vec<_>>().join("+")
+            )
+        }
+    }
+}
+
+fn signature(f: &Fail, culprit: Option<&str>) -> String {
+    let mut s = format!("law={}", f.law);
+    if !f.kind.is_empty() {
+        let key = match f.law.as_str() {
+            "no_empty_binding" => "where",
+            "overlap_implies_ambiguous" => "dir",
+            "no_panic" => "call",
+            _ => "kind",
+        };
+        s.push_str(&format!(" {}={}", key, f.kind));
+    }
+    if let Some(c) = culprit {
+        s.push_str(&format!(" culprit={}", c));
+    }
+    s
+}
+
+// ------------------------------------------------------------------------------------------
+// hand-written patterns
+
+fn must_err() -> Vec<(&'static str, &'static str)> {
+    vec![
+        ("", "empty_pattern"),
+        ("/", "empty_segment"),
+        ("//", "empty_segment"),
+        ("//a", "empty_segment"),
+        ("/a//b", "empty_segment"),
+        ("a//b", "empty_segment"),
+        ("/a/", "empty_segment"),
+        ("a/", "empty_segment"),
+        ("/a//", "empty_segment"),
+        ("swim:/", "empty_segment"),
+        ("swim://a", "empty_segment"),
+        ("swim:/a/", "empty_segment"),
+        ("/:x/", "empty_segment"),
+        (":", "lone_colon"),
+        ("/:", "lone_colon"),
+        ("/:/a", "lone_colon"),
+        ("/a/:", "lone_colon"),
+        (":/a", "lone_colon"),
+        ("swim::", "lone_colon"),
+        ("swim:/:", "lone_colon"),
+        ("/:x/:", "lone_colon"),
+        ("/:x/:x", "duplicate_parameter"),
+        (":x/:x", "duplicate_parameter"),
+        ("/:x/a/:x", "duplicate_parameter"),
+        ("swim:/:y/:y", "duplicate_parameter"),
+        ("/:x/:y/:x", "duplicate_parameter"),
+        ("/:x/:y/:y", "duplicate_parameter"),
+    ]
+}
+
+fn odd_patterns() -> Vec<String> {
+    let mut v: Vec<String> = [
+        "swim:", "a:b:c", "/:x:y", "/a:b", "%", "/%", "/%zz", "/%f", "/a?b", "/a#b", " ", "/ ", "\0", "/\u{0}", "é:", "é:/a",
+        "/:é", "/é:x", "1:/a", "swim:/:x/::", "::", ":/", "/😀", "/:😀", "/%F0%9F", "/%ff", "/:%ff", "/aé", "/a/%", "+:/a",
+        "a+b:/a", "/:x/é", "\u{feff}/a", "/a\n", "/:x\n/b",
+    ]
+    .iter()
+    .map(|s| s.to_string())
+    .collect();
+    v.push("a".repeat(300));
+    v.push(format!("/{}", ":x/".repeat(40)));
+    v
+}
+
+fn odd_uris() -> Vec<&'static str> {
+    vec![
+        "", "/", "//", "/a/", "/a//b", "a/", "a//b", "swim:", "swim:/", "swim:/a/", "/%", "/%ff", "/%zz", "/a b", "/é", "/a/é",
+        "/a?b", "/a#b", "/a?", "/a/?q", "/a//", "warp:/a", "swim:a", ":", "/:x", "swim::x",
+    ]
+}
+
+// ------------------------------------------------------------------------------------------
+// one space
+
+struct Collected {
+    sig: String,
+    leg: String,
+    detail: Value,
+}
+
+/// Violations in enumeration order; only the first (smallest) case per signature is kept.
+#[derive(Default)]
+struct Sink {
+    seen: BTreeSet<String>,
+    items: Vec<Collected>,
+}
+
+impl Sink {
+    fn push(&mut self, c: Collected) {
+        if self.seen.insert(c.sig.clone()) {
+            self.items.push(c);
+        }
+    }
+}
+
+fn run_space(ctx: &Ctx, sp: &Space, wall_cap_s: f64, out: &mut Sink) {
+    let threads = ncpu();
+    let universe = sp.universe();
+
+    // ---------------- parse leg
+    let t0 = Instant::now();
+    let leg_parse = format!("{}_parse", sp.name);
+    let mut specs = sp.specs();
+    let n_generated = specs.len();
+    specs.extend(sp.extras.iter().cloned());
+    let mut pats: Vec<Pat> = vec![];
+    let mut parse_calls = 0u64;
+    let mut n_dup = 0u64;
+    let mut parse_samples = vec![];
+    for (si, spec) in specs.iter().enumerate() {
+        let extra = si >= n_generated;
+        parse_calls += 1;
+        let r = guard(|| RoutePattern::parse_str(&spec.text));
+        let case = json!({"case": "parse", "pattern": spec.to_json(), "expect": if spec.has_dup() { "err" } else { "ok" }});
+        match r {
+            Err(pm) => out.push(Collected {
+                sig: "law=no_panic call=parse_str".to_string(),
+                leg: leg_parse.clone(),
+                detail: json!({"what": format!("parse_str panicked: {}", pm), "example": spec.text, "replay": case}),
+            }),
+            Ok(Ok(rp)) => {
+                if spec.has_dup() {
+                    n_dup += 1;
+                    out.push(Collected {
+                        sig: "law=parse_rejects_malformed class=duplicate_parameter".to_string(),
+                        leg: leg_parse.clone(),
+                        detail: json!({"what": "a pattern naming the same parameter twice was accepted", "example": spec.text, "replay": case}),
+                    });
+                } else {
+                    // structure
+                    let got_params: Vec<String> = rp.parameters().map(|s| s.to_string()).collect();
+                    let mut bad = None;
+                    if got_params != spec.params() {
+                        bad = Some(("parameters", format!("{:?} expected {:?}", got_params, spec.params())));
+                    } else if rp.scheme_str().map(|s| s.to_string()) != spec.scheme {
+                        bad = Some(("scheme", format!("{:?} expected {:?}", rp.scheme_str(), spec.scheme)));
+                    } else if rp.has_absolute_path() != spec.absolute {
+                        bad = Some(("absolute", format!("{} expected {}", rp.has_absolute_path(), spec.absolute)));
+                    } else if rp.to_string() != spec.text {
+                        bad = Some(("display", format!("{} expected {}", rp, spec.text)));
+                    }
+                    if let Some((field, d)) = bad {
+                        out.push(Collected {
+                            sig: format!("law=parse_structure field={}", field),
+                            leg: leg_parse.clone(),
+                            detail: json!({"what": format!("parsed pattern has {} {}", field, d), "example": spec.text, "replay": case}),
+                        });
+                    }
+                    let uni = if extra { spec.params() } else { universe.clone() };
+                    pats.push(Pat { spec: spec.clone(), rp, params: spec.params(), universe: uni });
+                    if parse_samples.len() < 3 && spec.segs.len() >= 2 {
+                        parse_samples.push(json!({"pattern": spec.text, "parsed": "ok", "parameters": got_params}));
+                    }
+                }
+            }
+            Ok(Err(e)) => {
+                if spec.has_dup() {
+                    n_dup += 1;
+                } else {
+                    out.push(Collected {
+                        sig: format!(
+                            "law=parse_accepts_wellformed culprit={}",
+                            spec.segs.iter().map(|s| s.text()).min().unwrap_or_default()
+                        ),
+                        leg: leg_parse.clone(),
+                        detail: json!({"what": format!("well-formed pattern rejected: {}", e), "example": spec.text, "replay": case}),
+                    });
+                }
+            }
+        }
+    }
+    ctx.add_leg(Leg {
+        name: leg_parse.clone(),
+        engine: "E4".into(),
+        states: specs.len() as u64,
+        transitions: parse_calls,
+        evaluations: specs.len() as u64,
+        distinct_nontrivial: n_dup,
+        rule: "generated patterns that name a parameter twice (must be rejected)".into(),
+        samples: parse_samples,
+        exhaustive: true,
+        bounds: sp.bounds(),
+        wall_s: t0.elapsed().as_secs_f64(),
+    });
+
+    // ---------------- roundtrip leg
+    let t0 = Instant::now();
+    let leg_rt = format!("{}_roundtrip", sp.name);
+    struct RtRow {
+        uris: Vec<(String, bool)>, // (uri, probe)
+        fails: Vec<(PMap, Fail, String)>,
+        nfail: u64,
+        calls: u64,
+        evals: u64,
+        nontrivial: u64,
+        sample: Option<Value>,
+    }
+    let maps_cache: Mutex<HashMap<Vec<String>, std::sync::Arc<Vec<PMap>>>> = Mutex::new(HashMap::new());
+    let rows: Vec<RtRow> = par_map(&pats, threads, |_, p| {
+        let maps = {
+            let mut c = maps_cache.lock().unwrap();
+            c.entry(p.universe.clone()).or_insert_with(|| std::sync::Arc::new(all_maps(&p.universe))).clone()
+        };
+        let mut row = RtRow { uris: vec![], fails: vec![], nfail: 0, calls: 0, evals: 0, nontrivial: 0, sample: None };
+        let mut row_sigs: BTreeSet<String> = BTreeSet::new();
+        let mut row_uris: BTreeSet<(String, bool)> = BTreeSet::new();
+        let mut nontriv: BTreeSet<PMap> = BTreeSet::new();
+        let encoded_lit = p.spec.segs.iter().any(|s| matches!(s, Seg::Lit(l) if l.contains('%') || !l.is_ascii()));
+        for m in maps.iter() {
+            let r = roundtrip(p, m);
+            row.calls += r.calls;
+            row.evals += 1;
+            if let Some(u) = &r.uri {
+                row_uris.insert((u.clone(), !r.synth));
+                if r.synth && (!p.params.is_empty() || encoded_lit) {
+                    let restricted: PMap = p.params.iter().filter_map(|n| m.get(n).map(|v| (n.clone(), v.clone()))).collect();
+                    if nontriv.insert(restricted.clone()) && row.sample.is_none() && restricted.values().any(|v| !v.is_ascii() || v.contains(' ')) {
+                        row.sample = Some(json!({"pattern": p.spec.text, "map": restricted, "uri": u, "roundtrip": r.fail.is_none()}));
+                    }
+                }
+            }
+            if let Some(f) = r.fail {
+                row.nfail += 1;
+                // smallest reproducing map: the pattern's own parameters only, if that still fails
+                let restricted: PMap = p.params.iter().filter_map(|n| m.get(n).map(|v| (n.clone(), v.clone()))).collect();
+                let (mm, f) = match roundtrip(p, &restricted).fail {
+                    Some(f2) if f2.law == f.law && f2.kind == f.kind => (restricted, f2),
+                    _ => (m.clone(), f),
+                };
+                let culprit =
+                    if f.law == "no_panic" || f.law == "entrypoints_agree" { None } else { Some(roundtrip_culprit(p, &mm, &f.law)) };
+                let sig = signature(&f, culprit.as_deref());
+                if row_sigs.insert(sig.clone()) {
+                    row.fails.push((mm, f, sig));
+                }
+            }
+        }
+        // probes: one parameter's segment emptied (apply itself refuses "")
+        for (i, n) in p.params.iter().enumerate() {
+            let mut hm = HashMap::new();
+            for (j, n2) in p.params.iter().enumerate() {
+                hm.insert(n2.clone(), if i == j { SENTINEL.to_string() } else { "a".to_string() });
+            }
+            row.calls += 1;
+            if let Ok(Ok(u)) = guard(|| p.rp.apply(&hm)) {
+                let _ = n;
+                row_uris.insert((u.replacen(SENTINEL, "", 1), true));
+            }
+        }
+        // canonical URIs: the same (pattern, map) written through an all-parameter sibling pattern of
+        // the same form, so that literals appear percent-encoded as apply encodes values (for the
+        // literal "é" this is the only valid URI text that matches it)
+        if p.spec.segs.iter().any(|s| matches!(s, Seg::Lit(_))) {
+            let sib_segs: Vec<Seg> = (0..p.spec.segs.len()).map(|i| Seg::Par(format!("p{}", i))).collect();
+            let sib = Spec::new(p.spec.scheme.as_deref(), p.spec.absolute, sib_segs);
+            if let Some(sib) = make_pat(&sib, &[]) {
+                let mut seen: BTreeSet<PMap> = BTreeSet::new();
+                for m in maps.iter() {
+                    if !p.params.iter().all(|n| m.get(n).map_or(false, |v| !v.is_empty())) {
+                        continue;
+                    }
+                    let mut mm = PMap::new();
+                    for (i, sg) in p.spec.segs.iter().enumerate() {
+                        let v = match sg {
+                            Seg::Lit(l) => String::from_utf8_lossy(&pdecode(l)).to_string(),
+                            Seg::Par(n) => m[n].clone(),
+                        };
+                        mm.insert(format!("p{}", i), v);
+                    }
+                    if !seen.insert(mm.clone()) {
+                        continue;
+                    }
+                    row.calls += 1;
+                    if let Ok(Ok(u)) = guard(|| sib.rp.apply(&to_hash(&mm))) {
+                        row_uris.insert((u, true));
+                    }
+                }
+            }
+        }
+        row.uris = row_uris.into_iter().collect();
+        row.nontrivial = nontriv.len() as u64;
+        row
+    });
+    let mut rt_calls = 0;
+    let mut rt_evals = 0;
+    let mut rt_nontrivial = 0;
+    let mut rt_samples = vec![];
+    let mut origins: BTreeMap<String, u32> = BTreeMap::new();
+    let mut probes: BTreeSet<String> = BTreeSet::new();
+    let mut rt_fail_count = 0u64;
+    for (pi, row) in rows.iter().enumerate() {
+        rt_calls += row.calls;
+        rt_evals += row.evals;
+        rt_nontrivial += row.nontrivial;
+        if let Some(s) = &row.sample {
+            if rt_samples.len() < 3 && pi % 7 == 3 {
+                rt_samples.push(s.clone());
+            }
+        }
+        for (u, probe) in &row.uris {
+            if *probe {
+                probes.insert(u.clone());
+            } else {
+                *origins.entry(u.clone()).or_insert(0) += 1;
+            }
+        }
+        rt_fail_count += row.nfail;
+        for (m, f, sig) in &row.fails {
+            let p = &pats[pi];
+            out.push(Collected {
+                sig: sig.clone(),
+                leg: leg_rt.clone(),
+                detail: json!({"what": f.what, "example": {"pattern": p.spec.text, "map": m},
+                               "replay": {"case": "roundtrip", "pattern": p.spec.to_json(), "map": m}}),
+            });
+        }
+    }
+    if rt_samples.is_empty() {
+        rt_samples = rows.iter().filter_map(|r| r.sample.clone()).take(3).collect();
+    }
+    let multi_origin = origins.values().filter(|c| **c >= 2).count();
+    ctx.add_leg(Leg {
+        name: leg_rt.clone(),
+        engine: "E4".into(),
+        states: rt_evals,
+        transitions: rt_calls,
+        evaluations: rt_evals,
+        distinct_nontrivial: rt_nontrivial,
+        rule: "distinct (pattern, bound parameters) whose apply succeeded and that has a parameter or a percent-encoded / non-ASCII literal".into(),
+        samples: rt_samples,
+        exhaustive: true,
+        bounds: json!({"patterns": pats.len(), "maps_per_pattern": all_maps(&universe).len(), "failing_cases": rt_fail_count,
+                       "distinct_uris": origins.len(), "uris_reached_from_more_than_one_pattern": multi_origin}),
+        wall_s: t0.elapsed().as_secs_f64(),
+    });
+    drop(rows);
+
+    // ---------------- matrix leg
+    let t0 = Instant::now();
+    let leg_mx = format!("{}_matrix", sp.name);
+    for u in odd_uris() {
+        probes.insert(u.to_string());
+    }
+    let mut pool: Vec<(String, bool)> = origins.keys().map(|u| (u.clone(), false)).collect();
+    for u in &probes {
+        if !origins.contains_key(u) {
+            pool.push((u.clone(), true));
+        }
+    }
+    pool.sort_by(|a, b| (a.0.len(), &a.0).cmp(&(b.0.len(), &b.0)));
+    let n = pats.len();
+    let tri = |i: usize, j: usize| -> usize { i * n - i * (i + 1) / 2 + (j - i - 1) };
+    // one bit per unordered pair of patterns: some URI of the pool matches both
+    let npairs = n * n.saturating_sub(1) / 2;
+    let overlap: Vec<AtomicU64> = (0..npairs / 64 + 1).map(|_| AtomicU64::new(0)).collect();
+    let set_overlap = |i: usize, j: usize| {
+        let t = tri(i, j);
+        let bit = 1u64 << (t % 64);
+        if overlap[t / 64].load(Ordering::Relaxed) & bit == 0 {
+            overlap[t / 64].fetch_or(bit, Ordering::Relaxed);
+        }
+    };
+    let has_overlap = |i: usize, j: usize| -> bool {
+        let t = tri(i, j);
+        overlap[t / 64].load(Ordering::Relaxed) & (1u64 << (t % 64)) != 0
+    };
+    struct MxRow {
+        valid: bool,
+        matches: u32,
+        fails: Vec<(usize, Fail)>,
+        calls: u64,
+        sample: Option<Value>,
+    }
+    let mut mx_calls = 0u64;
+    let mut mx_evals = 0u64;
+    let mut mx_matches = 0u64;
+    let mut mx_invalid = 0u64;
+    let mut mx_done = 0usize;
+    let mut mx_samples = vec![];
+    let mut capped = false;
+    let chunk = 2048;
+    let mut start = 0;
+    while start < pool.len() {
+        if t0.elapsed().as_secs_f64() > wall_cap_s {
+            capped = true;
+            break;
+        }
+        let end = (start + chunk).min(pool.len());
+        let base = start;
+        let rows: Vec<MxRow> = par_map(&pool[start..end], threads, |_k, (u, _probe)| {
+            let ru = guard(|| RouteUri::from_str(u)).ok().and_then(|r| r.ok());
+            let mut row = MxRow { valid: ru.is_some(), matches: 0, fails: vec![], calls: 1, sample: None };
+            let mut ms: Vec<u32> = vec![];
+            for (qi, q) in pats.iter().enumerate() {
+                let r = matrix_case(u, ru.as_ref(), q);
+                row.calls += r.calls;
+                if r.matched {
+                    ms.push(qi as u32);
+                }
+                if let Some(f) = r.fail {
+                    if row.fails.len() < 4 {
+                        row.fails.push((qi, f));
+                    }
+                }
+            }
+            for a in 0..ms.len() {
+                for b in a + 1..ms.len() {
+                    set_overlap(ms[a] as usize, ms[b] as usize);
+                }
+            }
+            row.matches = ms.len() as u32;
+            if ms.len() >= 2 && ms.len() <= 6 {
+                row.sample = Some(json!({"uri": u, "matched_by": ms.iter().map(|i| pats[*i as usize].spec.text.clone()).collect::<Vec<_>>()}));
+            }
+            row
+        });
+        for (k, row) in rows.iter().enumerate() {
+            mx_calls += row.calls;
+            mx_evals += n as u64;
+            mx_matches += row.matches as u64;
+            if !row.valid {
+                mx_invalid += 1;
+            }
+            if let Some(s) = &row.sample {
+                if mx_samples.len() < 3 && (base + k) % 97 == 5 {
+                    mx_samples.push(s.clone());
+                }
+            }
+            for (qi, f) in &row.fails {
+                let q = &pats[*qi];
+                let u = &pool[base + k].0;
+                out.push(Collected {
+                    sig: signature(f, None),
+                    leg: leg_mx.clone(),
+                    detail: json!({"what": f.what, "example": {"uri": u, "pattern": q.spec.text},
+                                   "replay": {"case": "matrix", "uri": u, "pattern": q.spec.to_json()}}),
+                });
+            }
+        }
+        mx_done = end;
+        start = end;
+    }
+    if capped {
+        ctx.assume(&format!(
+            "{}: wall cap hit after {} of {} URIs (smallest first); later URIs were not matched",
+            leg_mx,
+            mx_done,
+            pool.len()
+        ));
+    }
+    ctx.add_leg(Leg {
+        name: leg_mx.clone(),
+        engine: "E4".into(),
+        states: mx_done as u64,
+        transitions: mx_calls,
+        evaluations: mx_evals,
+        distinct_nontrivial: mx_matches,
+        rule: "(URI, pattern) cases in which the pattern matched the URI".into(),
+        samples: mx_samples,
+        exhaustive: !capped,
+        bounds: json!({"uris": pool.len(), "uris_done": mx_done, "derived_uris_not_produced_by_a_generated_pattern": pool.iter().filter(|p| p.1).count(),
+                       "uris_rejected_by_RouteUri": mx_invalid, "patterns": n}),
+        wall_s: t0.elapsed().as_secs_f64(),
+    });
+
+    // ---------------- pairs leg
+    let t0 = Instant::now();
+    let leg_pr = format!("{}_pairs", sp.name);
+    #[derive(Default)]
+    struct PrRow {
+        pairs: u64,
+        ambiguous: u64,
+        overlap: u64,
+        over_absrel: u64,
+        over_scheme: u64,
+        over_other: u64,
+        asym: u64,
+        nfail: u64,
+        fails: Vec<usize>,
+        over_sample: Option<Value>,
+        sample: Option<usize>,
+    }
+    // first URI of the (completed part of the) pool that both patterns match
+    let find_witness = |p: &Pat, q: &Pat| -> Option<String> {
+        pool[..mx_done].iter().map(|(u, _)| u).find(|u| {
+            let ru = guard(|| RouteUri::from_str(u)).ok().and_then(|r| r.ok());
+            ru.is_some() && matrix_case(u, ru.as_ref(), p).matched && matrix_case(u, ru.as_ref(), q).matched
+        }).cloned()
+    };
+    let idx: Vec<usize> = (0..n).collect();
+    let rows: Vec<PrRow> = par_map(&idx, threads, |_, &i| {
+        let mut row = PrRow::default();
+        for j in i + 1..n {
+            let (p, q) = (&pats[i], &pats[j]);
+            if p.spec.text == q.spec.text {
+                continue;
+            }
+            let ov = has_overlap(i, j);
+            let r = pair_case(p, q, if ov { Some("") } else { None });
+            row.pairs += 1;
+            if r.amb_pq || r.amb_qp {
+                row.ambiguous += 1;
+            }
+            if r.amb_pq != r.amb_qp {
+                row.asym += 1;
+            }
+            if ov {
+                row.overlap += 1;
+                if row.sample.is_none() && r.fail.is_none() && p.spec.segs.len() >= 2 {
+                    row.sample = Some(j);
+                }
+            } else if r.amb_pq || r.amb_qp {
+                if p.spec.absolute != q.spec.absolute {
+                    row.over_absrel += 1;
+                } else if matches!((&p.spec.scheme, &q.spec.scheme), (Some(a), Some(b)) if a != b) {
+                    row.over_scheme += 1;
+                } else {
+                    row.over_other += 1;
+                    if row.over_sample.is_none() {
+                        row.over_sample = Some(json!({"p": p.spec.text, "q": q.spec.text}));
+                    }
+                }
+            }
+            if r.fail.is_some() {
+                row.nfail += 1;
+                if row.fails.len() < 8 {
+                    row.fails.push(j);
+                }
+            }
+        }
+        row
+    });
+    let cache = Mutex::new(HashMap::new());
+    let mut tot = PrRow::default();
+    let mut pr_samples = vec![];
+    let mut over_samples = vec![];
+    let mut sample_pairs = vec![];
+    for (i, row) in rows.iter().enumerate() {
+        tot.pairs += row.pairs;
+        tot.ambiguous += row.ambiguous;
+        tot.overlap += row.overlap;
+        tot.over_absrel += row.over_absrel;
+        tot.over_scheme += row.over_scheme;
+        tot.over_other += row.over_other;
+        tot.asym += row.asym;
+        tot.nfail += row.nfail;
+        if let Some(j) = row.sample {
+            if sample_pairs.len() < 3 && (i % 11 == 7 || n < 12) {
+                sample_pairs.push((i, j));
+            }
+        }
+        if let Some(s) = &row.over_sample {
+            if over_samples.len() < 5 {
+                over_samples.push(s.clone());
+            }
+        }
+        for j in &row.fails {
+            let (p, q) = (&pats[i], &pats[*j]);
+            let wu = find_witness(p, q);
+            let r = pair_case(p, q, wu.as_deref());
+            let f = match r.fail {
+                Some(f) => f,
+                None => continue,
+            };
+            let culprit = if f.law == "no_panic" { None } else { Some(pair_culprit(p, q, &cache)) };
+            out.push(Collected {
+                sig: signature(&f, culprit.as_deref()),
+                leg: leg_pr.clone(),
+                detail: json!({"what": f.what, "example": {"p": p.spec.text, "q": q.spec.text, "uri": wu},
+                               "replay": {"case": "pair", "p": p.spec.to_json(), "q": q.spec.to_json(), "uri": wu}}),
+            });
+        }
+    }
+    for (i, j) in sample_pairs {
+        let (p, q) = (&pats[i], &pats[j]);
+        pr_samples.push(json!({"p": p.spec.text, "q": q.spec.text, "common_uri": find_witness(p, q), "are_ambiguous": true}));
+    }
+    ctx.add_leg(Leg {
+        name: leg_pr.clone(),
+        engine: "E4".into(),
+        states: tot.pairs,
+        transitions: tot.pairs * 2,
+        evaluations: tot.pairs,
+        distinct_nontrivial: tot.overlap,
+        rule: "unordered pairs of distinct patterns for which some URI of the pool matches both".into(),
+        samples: pr_samples,
+        exhaustive: !capped,
+        bounds: json!({"patterns": n, "pairs": tot.pairs, "pairs_with_common_uri": tot.overlap,
+                       "pairs_reported_ambiguous": tot.ambiguous,
+                       "over_approximation_count": tot.over_absrel + tot.over_scheme + tot.over_other,
+                       "over_approximation_absolute_vs_relative": tot.over_absrel,
+                       "over_approximation_different_schemes": tot.over_scheme,
+                       "over_approximation_other": tot.over_other,
+                       "over_approximation_other_samples": over_samples,
+                       "asymmetric_answers": tot.asym,
+                       "pairs_with_common_uri_not_reported": tot.nfail}),
+        wall_s: t0.elapsed().as_secs_f64(),
+    });
+}
+
+// ------------------------------------------------------------------------------------------
+// malformed / odd patterns
+
+fn run_malformed(ctx: &Ctx, out: &mut Sink) {
+    let t0 = Instant::now();
+    let leg = "malformed";
+    let mut calls = 0u64;
+    let mut evals = 0u64;
+    let mut rejected = 0u64;
+    let mut samples = vec![];
+    for (text, class) in must_err() {
+        evals += 1;
+        calls += 1;
+        let case = json!({"case": "parse_text", "text": text, "expect": "err", "class": class});
+        match guard(|| RoutePattern::parse_str(text)) {
+            Err(pm) => out.push(Collected {
+                sig: "law=no_panic call=parse_str".into(),
+                leg: leg.into(),
+                detail: json!({"what": format!("parse_str panicked: {}", pm), "example": text, "replay": case}),
+            }),
+            Ok(Ok(_)) => out.push(Collected {
+                sig: format!("law=parse_rejects_malformed class={}", class),
+                leg: leg.into(),
+                detail: json!({"what": format!("malformed pattern ({}) was accepted", class), "example": text, "replay": case}),
+            }),
+            Ok(Err(e)) => {
+                rejected += 1;
+                if samples.len() < 3 && evals % 9 == 5 {
+                    samples.push(json!({"pattern": text, "class": class, "result": e.to_string()}));
+                }
+            }
+        }
+    }
+    let uris = odd_uris();
+    for text in odd_patterns() {
+        evals += 1;
+        let case = json!({"case": "parse_text", "text": text, "expect": "nopanic"});
+        let f = odd_case(&text, &uris, &mut calls);
+        if let Some(f) = f {
+            out.push(Collected {
+                sig: signature(&f, None),
+                leg: leg.into(),
+                detail: json!({"what": f.what, "example": text, "replay": case}),
+            });
+        }
+    }
+    ctx.add_leg(Leg {
+        name: leg.into(),
+        engine: "E4".into(),
+        states: evals,
+        transitions: calls,
+        evaluations: evals,
+        distinct_nontrivial: rejected,
+        rule: "hand-written malformed patterns (empty pattern, empty segment, lone ':', duplicate parameter) that were rejected with Err".into(),
+        samples,
+        exhaustive: true,
+        bounds: json!({"must_be_rejected": must_err().len(), "no_panic_only": odd_patterns().len(), "odd_uris": uris.len()}),
+        wall_s: t0.elapsed().as_secs_f64(),
+    });
+}
+
+/// An odd pattern: whatever parse says, nothing may panic on parse / apply / unapply.
+fn odd_case(text: &str, uris: &[&str], calls: &mut u64) -> Option<Fail> {
+    *calls += 1;
+    let rp = match guard(|| RoutePattern::parse_str(text)) {
+        Err(pm) => return fail("no_panic", "parse_str", format!("parse_str({:?}) panicked: {}", text, pm)),
+        Ok(Err(_)) => return None,
+        Ok(Ok(rp)) => rp,
+    };
+    let params: Vec<String> = match guard(|| rp.parameters().map(|s| s.to_string()).collect::<Vec<_>>()) {
+        Ok(p) => p,
+        Err(pm) => return fail("no_panic", "parameters", pm),
+    };
+    let mut uni: Vec<String> = params.clone();
+    uni.sort();
+    uni.dedup();
+    uni.truncate(2);
+    for m in all_maps(&uni) {
+        *calls += 1;
+        match guard(|| rp.apply(&to_hash(&m))) {
+            Err(pm) => return fail("no_panic", "apply", format!("apply on {:?} panicked: {}", text, pm)),
+            Ok(Err(_)) => {}
+            Ok(Ok(u)) => {
+                *calls += 1;
+                if let Err(pm) = guard(|| rp.unapply_str(&u)) {
+                    return fail("no_panic", "unapply_str", format!("unapply_str({:?}) on {:?} panicked: {}", u, text, pm));
+                }
+            }
+        }
+    }
+    for u in uris {
+        *calls += 1;
+        if let Err(pm) = guard(|| rp.unapply_str(u)) {
+            return fail("no_panic", "unapply_str", format!("unapply_str({:?}) on {:?} panicked: {}", u, text, pm));
+        }
+    }
+    None
+}
+
+// ------------------------------------------------------------------------------------------
+
+fn replay(ctx: &Ctx, r: &Value) -> Option<String> {
+    let d = &r["detail"]["replay"];
+    match d["case"].as_str().unwrap_or("") {
+        "parse" => {
+            let spec = Spec::from_json(&d["pattern"]);
+            match (guard(|| RoutePattern::parse_str(&spec.text)), d["expect"].as_str().unwrap_or("")) {
+                (Err(pm), _) => Some(format!("parse_str panicked: {}", pm)),
+                (Ok(Ok(_)), "err") => Some(format!("'{}' accepted", spec.text)),
+                (Ok(Err(e)), "ok") => Some(format!("'{}' rejected: {}", spec.text, e)),
+                (Ok(Ok(rp)), "ok") => {
+                    let got: Vec<String> = rp.parameters().map(|s| s.to_string()).collect();
+                    if got != spec.params()
+                        || rp.scheme_str().map(|s| s.to_string()) != spec.scheme
+                        || rp.has_absolute_path() != spec.absolute
+                        || rp.to_string() != spec.text
+                    {
+                        Some(format!("'{}' parsed to a different structure", spec.text))
+                    } else {
+                        None
+                    }
+                }
+                _ => None,
+            }
+        }
+        "parse_text" => {
+            let text = d["text"].as_str().unwrap_or("");
+            if d["expect"] == "err" {
+                match guard(|| RoutePattern::parse_str(text)) {
+                    Err(pm) => Some(format!("parse_str panicked: {}", pm)),
+                    Ok(Ok(_)) => Some(format!("{:?} accepted", text)),
+                    Ok(Err(_)) => None,
+                }
+            } else {
+                let mut c = 0;
+                odd_case(text, &odd_uris(), &mut c).map(|f| f.what)
+            }
+        }
+        "roundtrip" => {
+            let spec = Spec::from_json(&d["pattern"]);
+            let m: PMap = d["map"]
+                .as_object()
+                .map(|o| o.iter().map(|(k, v)| (k.clone(), v.as_str().unwrap_or("").to_string())).collect())
+                .unwrap_or_default();
+            match make_pat(&spec, &[]) {
+                None => Some(format!("pattern '{}' no longer parses", spec.text)),
+                Some(p) => roundtrip(&p, &m).fail.map(|f| f.what),
+            }
+        }
+        "matrix" => {
+            let spec = Spec::from_json(&d["pattern"]);
+            let u = d["uri"].as_str().unwrap_or("");
+            match make_pat(&spec, &[]) {
+                None => Some(format!("pattern '{}' no longer parses", spec.text)),
+                Some(q) => {
+                    let ru = guard(|| RouteUri::from_str(u)).ok().and_then(|r| r.ok());
+                    matrix_case(u, ru.as_ref(), &q).fail.map(|f| f.what)
+                }
+            }
+        }
+        "pair" => {
+            let (p, q) = (Spec::from_json(&d["p"]), Spec::from_json(&d["q"]));
+            let u = d["uri"].as_str().unwrap_or("");
+            match (make_pat(&p, &[]), make_pat(&q, &[])) {
+                (Some(p), Some(q)) => {
+                    let ru = guard(|| RouteUri::from_str(u)).ok().and_then(|r| r.ok());
+                    let both = matrix_case(u, ru.as_ref(), &p).matched && matrix_case(u, ru.as_ref(), &q).matched;
+                    if both {
+                        pair_case(&p, &q, Some(u)).fail.map(|f| f.what)
+                    } else {
+                        None
+                    }
+                }
+                _ => Some("a pattern of the pair no longer parses".to_string()),
+            }
+        }
+        other => vcommon::machinery_failure(&format!("{}: unknown replay case {:?}", ctx.id, other)),
+    }
+}
+
 fn main() {
-    vcommon::machinery_failure("C18: engine not built yet");
+    std::panic::set_hook(Box::new(|_| {}));
+    let ctx = Ctx::from_env("C18");
+
+    if let Some(r) = ctx.replay_request() {
+        let r = r.clone();
+        if let Some(what) = replay(&ctx, &r) {
+            ctx.violation(
+                "replay",
+                r["signature"].as_str().unwrap_or("replay"),
+                json!({"what": what, "example": r["detail"]["example"], "replay": r["detail"]["replay"]}),
+            );
+        }
+        ctx.finish("model_checking", "replay");
+    }
+
+    let quick = ctx.quick();
+    let main_len = if quick { 3 } else { 5 };
+    let alias_len = if quick { 2 } else { 4 };
+    let meta = vec![
+        // the patterns PlaneModel::check_meta_collisions tests every route against
+        Spec::new(Some("swimos"), false, vec![lit("meta:node"), par("node_uri")]),
+        Spec::new(Some("swimos"), false, vec![lit("meta:node"), par("node_uri"), lit("lane"), par("lane_name")]),
+        Spec::new(Some("swimos"), false, vec![lit("meta:mesh")]),
+    ];
+    let spaces = vec![
+        Space {
+            name: "main",
+            segs: vec![lit("a"), lit("b"), par("x"), par("y"), lit("a%20b"), lit("é")],
+            max_len: main_len,
+            schemes: vec![(None, main_len), (Some("swim"), main_len), (Some("warp"), 2)],
+            extras: meta,
+        },
+        Space {
+            // literals / parameter names that are different texts of the same decoded segment
+            name: "alias",
+            segs: vec![lit("a"), lit("%61"), lit("é"), lit("%C3%A9"), lit("%c3%a9"), par("x"), par("%78")],
+            max_len: alias_len,
+            schemes: vec![(None, alias_len), (Some("swim"), alias_len)],
+            extras: vec![],
+        },
+    ];
+    let mut out = Sink::default();
+    run_malformed(&ctx, &mut out);
+    let cap = if quick { 40.0 } else { 600.0 };
+    for sp in &spaces {
+        run_space(&ctx, sp, cap, &mut out);
+    }
+    // violations are reported in enumeration order (smallest first): the first per signature is kept
+    for c in &out.items {
+        ctx.violation(&c.leg, &c.sig, c.detail.clone());
+    }
+    ctx.finish(
+        "model_checking",
+        "Bounded exhaustive enumeration (E4) of route patterns over a segment alphabet (literals, parameters, \
+         percent-encoded and non-ASCII segments; with and without scheme; absolute and relative), all parameter \
+         maps over boundary values, every synthesised URI against every pattern, and every pair of patterns; \
+         checked on swimos_route::RoutePattern / RouteUri through the entry points the server uses \
+         (RouteUri::from_str + unapply_route_uri, RoutePattern::are_ambiguous).",
+    );
 }
